@@ -813,8 +813,7 @@ class CFG:
         if isinstance(other, regular_expression.Regex):
             other = other.to_epsilon_nfa().to_deterministic()
         elif isinstance(other, FiniteAutomaton):
-            if not other.is_deterministic():
-                other = other.to_deterministic()
+            other = other.to_deterministic()
         else:
             raise NotImplementedError
         if other.is_empty():
